@@ -228,8 +228,8 @@ def scale(n):
 
 
 def quick_extra_configs(sub):
-    if getattr(sub, "setup", None) is not None:
-        return []          # sub-checks with their own environment already span the back ends
+    if getattr(sub, "setup", None) is not None and "asm" not in sub.configs:
+        return []          # sub-checks with their own environment (pseudo configurations) already span the back ends
     if os.environ.get("VERIF_SAN") == "1":
         return []          # sanitizer suites (C17) choose their configurations themselves
     extra = [c for c in sub.thorough_configs if c not in sub.configs]
